@@ -17,7 +17,7 @@ from harness.core import err_name, run_oracle_cases
 
 PROP = 'C13'
 PROOF_MODULES = ['Ladybug.Props.C13']
-GREP_MODULES = ['Ladybug.Model.Resample', 'Ladybug.Proofs.C13Lemmas', 'Ladybug.Drv.C13',
+GREP_MODULES = ['Ladybug.Model.Resample', 'Ladybug.Proofs.C13Lemmas', 'Ladybug.Proofs.C13Interp', 'Ladybug.Drv.C13',
                 'Ladybug.Model.AP', 'Ladybug.Model.Cal', 'Ladybug.Py', 'Ladybug.DrvCore']
 RULE = ('correspondence: header periods from a boundary product (one day / few days / months / annual / '
         'wrapping the year end; hour windows full, partial, overnight; 8 timesteps; leap) x data = subsets '
@@ -530,30 +530,30 @@ def _correspondence(ctx):
     rng = ctx.rng
     # fixed corpus first
     corpus = [c for op, c in _corpus() if op == 'validate_hourly']
-    cases = corpus + _gen_validate_hourly(ctx, ctx.n(1500, 40000))
+    cases = corpus + _gen_validate_hourly(ctx, ctx.n(1000, 12000))
     _compare_exact(ctx, 'vh', cases,
                    lambda c: 'vh %s %s %d%s' % (_ap_line(c['ap']), _b(c['dl']), len(c['data']),
                                                  _line_items(c['data'])), _impl_vh)
     for kind, op, cls in (('daily', 'vd', 'DailyCollection'), ('monthly', 'vm', 'MonthlyCollection')):
-        cases = _gen_keys(ctx, kind, ctx.n(1200, 15000))
+        cases = _gen_keys(ctx, kind, ctx.n(700, 5000))
         _compare_exact(ctx, op, cases,
                        lambda c, op=op: '%s %s %d%s' % (op, _ap_line(c['ap']), len(c['data']),
                                                         _line_items(c['data'])), _impl_keys(cls))
-    cases = _gen_keys(ctx, 'mph', ctx.n(1200, 15000))
+    cases = _gen_keys(ctx, 'mph', ctx.n(700, 5000))
     _compare_exact(ctx, 'vp', cases,
                    lambda c: 'vp %s %d%s' % (_ap_line(c['ap']), len(c['data']),
                                              ''.join(' %d %d %d %d' % (k[0], k[1], k[2], v) for k, v in c['data'])),
                    _impl_keys('MonthlyPerHourCollection'))
-    cases = _gen_cull(ctx, ctx.n(1000, 15000))
+    cases = _gen_cull(ctx, ctx.n(600, 5000))
     _compare_exact(ctx, 'cull', cases,
                    lambda c: 'cull %s %d %d%s' % (_ap_line(c['ap']), c['ts'], len(c['data']),
                                                   _line_items(c['data'])), _impl_cull)
-    cases = [c for op, c in _corpus() if op == 'holes'] + _gen_holes(ctx, ctx.n(700, 8000))
+    cases = [c for op, c in _corpus() if op == 'holes'] + _gen_holes(ctx, ctx.n(450, 3000))
     _compare_num(ctx, 'holes', cases,
                  lambda c: 'holes %s %s %d%s' % (_ap_line(c['ap']), _b(c['validated']), len(c['data']),
                                                  ''.join(' %d %s' % (m, _rat(v)) for m, v in c['data'])),
                  _impl_holes)
-    cases = [c for op, c in _corpus() if op == 'interp'] + _gen_interp(ctx, ctx.n(500, 6000))
+    cases = [c for op, c in _corpus() if op == 'interp'] + _gen_interp(ctx, ctx.n(350, 2500))
     _compare_num(ctx, 'interp', cases,
                  lambda c: 'interp %s %d %s %s %s %d%s' % (
                      _ap_line(c['ap']), c['ts'], 'N' if c['cum'] is None else _b(c['cum']),
@@ -692,7 +692,8 @@ def _check_validate_keys(op, inp):
            'validate_mph': dc.MonthlyPerHourCollection}[op]
     ap, data = inp['ap'], inp['data']
     keys = [tuple(k) if isinstance(k, list) else k for k, _ in data]
-    sig = {'header': _header_kind(ap), 'n': 'one' if len(data) == 1 else 'many'}
+    sig = {'header': _header_kind(ap), 'n': 'one' if len(data) == 1 else 'many',
+           'same_month': ap[0] == ap[3], 'window': 'full' if (ap[2], ap[5]) == (0, 23) else 'partial'}
     dup = len(set(keys)) != len(keys)
     coll = cls(_header(ap), [v for _, v in data], keys)
     try:
@@ -716,6 +717,8 @@ def _check_validate_keys(op, inp):
     edoy = _md_to_doy(leap, nap.end_month, nap.end_day)
     if op == 'validate_daily':
         pos = [(k - sdoy) % nd for k in v.datetimes] if nap.is_reversed else list(v.datetimes)
+        if nap.is_reversed and sdoy == edoy and pos and v.datetimes[-1] == sdoy:
+            pos[-1] = nd              # a period that starts and ends on one day lists that day at both ends
         inside = [(1 <= k <= nd) and ((sdoy <= k <= edoy) if sdoy <= edoy and not nap.is_reversed
                                        else (k >= sdoy or k <= edoy)) for k in v.datetimes]
     elif op == 'validate_monthly':
@@ -723,6 +726,7 @@ def _check_validate_keys(op, inp):
         pos = [(k - sm) % 12 for k in v.datetimes] if nap.is_reversed else list(v.datetimes)
         inside = [(sm <= k <= em) if not nap.is_reversed else (k >= sm or k <= em) for k in v.datetimes]
     else:
+        cause = 'other'
         sm, em, sh, eh = nap.st_month, nap.end_month, nap.st_hour, nap.end_hour
         pos = [(((k[0] - sm) % 12) if nap.is_reversed else k[0], k[1]) for k in v.datetimes]
         inside = []
@@ -731,16 +735,20 @@ def _check_validate_keys(op, inp):
             h_ok = (sh <= k[1] <= eh) if sh <= eh else (k[1] >= sh or k[1] <= eh)
             mi_ok = k[2] % (60 // nap.timestep) == 0 and (k[2] == 0 or k[1] < eh or (sh, eh) == (0, 23))
             inside.append(mo_ok and h_ok and mi_ok)
-            if mo_ok and h_ok and not mi_ok:
-                sig['cause'] = 'minute'
+        if all((sm <= k[0] <= em) if not nap.is_reversed else (k[0] >= sm or k[0] <= em) for k in v.datetimes) \
+                and all((sh <= k[1] <= eh) if sh <= eh else (k[1] >= sh or k[1] <= eh) for k in v.datetimes):
+            cause = 'minute'
     if op == 'validate_mph':
-        unordered = any(a > b for a, b in zip(pos, pos[1:]))
+        pos = [p + (k[2],) for p, k in zip(pos, v.datetimes)]
+        unordered = any(a >= b for a, b in zip(pos, pos[1:]))
     else:
         unordered = any(a >= b for a, b in zip(pos, pos[1:]))
     if unordered:
         return {'required': 'chronological order from the period start', 'sig': dict(sig, fail='order'),
                 'observed': '%s: %s' % (nap, list(v.datetimes)[:14])}
     if not all(inside):
+        if op == 'validate_mph':
+            sig = dict(sig, cause=cause)
         return {'required': 'every key lies in the output period', 'sig': dict(sig, fail='contain'),
                 'observed': '%s does not contain %s' % (nap, [k for k, ok in zip(v.datetimes, inside) if not ok][:8])}
     return None
@@ -827,6 +835,7 @@ def _check_cull(inp):
     from ladybug.datacollection import HourlyDiscontinuousCollection
     ap, dl, data, ts = inp['ap'], inp['dl'], inp['data'], inp['ts']
     sig = {'ts': ts}
+    want = [(m, x) for m, x in data if m % (60 // ts) == 0]
     for via in ('cull_to_timestep', 'convert_to_culled_timestep'):
         coll = HourlyDiscontinuousCollection(_header(ap), [v for _, v in data], [_mk_dt(dl, m) for m, _ in data])
         try:
@@ -836,9 +845,10 @@ def _check_cull(inp):
                 coll.convert_to_culled_timestep(ts)
                 v = coll
         except Exception as e:
+            if via == 'cull_to_timestep' and isinstance(e, AssertionError) and not want:
+                continue              # nothing is on the coarser grid: an empty collection cannot be built
             return {'required': 'culled collection', 'observed': '%s: %s' % (type(e).__name__, e),
                     'sig': dict(sig, fail='raise', via=via)}
-        want = [(m, x) for m, x in data if m % (60 // ts) == 0]
         got = [(d.moy, x) for d, x in zip(v.datetimes, v.values)]
         if got != want:
             return {'required': 'exactly the steps on the %d-minute grid, in order' % (60 // ts),
@@ -884,10 +894,16 @@ def _corpus():
                              'data': [[2 * 1440 - 30, 1], [363 * 1440, 2], [60, 3]], 'tag': 'ok'}),
         # recorded findings
         ('validate_hourly', {'ap': [6, 21, 0, 6, 21, 12, 4, False], 'dl': False,
-                             'data': [[246240 + 600, 1], [246240 + 19 * 60 + 45, 2]], 'tag': 'ok'}),
+                             'data': [[246840, 1], [247425, 2]], 'tag': 'ok'}),
         ('validate_hourly', {'ap': [12, 30, 0, 1, 2, 12, 1, False], 'dl': False,
-                             'data': [[1440 + 15 * 60, 1], [151 * 1440, 2]], 'tag': 'ok'}),
+                             'data': [[2340, 1], [217440, 2]], 'tag': 'ok'}),
         ('validate_mph', {'ap': [1, 1, 0, 12, 31, 23, 2, False], 'data': [[[3, 4, 30], 1], [[3, 4, 0], 2]]}),
+        ('validate_monthly', {'ap': [1, 15, 0, 1, 14, 23, 1, False], 'data': [[1, 1], [2, 2], [7, 3], [10, 4], [11, 5]]}),
+        ('validate_mph', {'ap': [7, 31, 0, 7, 30, 23, 1, False], 'data': [[[4, 23, 0], 1]]}),
+        ('validate_mph', {'ap': [12, 30, 9, 1, 2, 9, 1, True], 'data': [[[5, 9, 0], 1], [[1, 23, 0], 2]]}),
+        # a repeated (month, hour, minute) key separated by another minute (repaired: mph_sort_full_key)
+        ('validate_mph', {'ap': [1, 1, 0, 12, 31, 23, 4, False],
+                          'data': [[[5, 9, 0], 1], [[5, 9, 45], 2], [[5, 9, 0], 3]]}),
         # holes: data from the period start with an interior hole (repaired: interpolate_holes_first_hole)
         ('holes', {'ap': [1, 1, 0, 1, 1, 23, 1, False], 'validated': True, 'tag': 'interior',
                    'data': [[0, 0], [60, 10], [240, 40], [300, 50], [1380, 230]]}),
@@ -909,18 +925,20 @@ def _oracle_cases(ctx):
     big = ctx.searching or not ctx.quick
     for op, c in _corpus():
         yield op, c
-    for c in _gen_validate_hourly(ctx, 20000 if big else 2500):
+    for c in _gen_validate_hourly(ctx, 8000 if big else 1600):
         if c['tag'] in ('empty',):
             continue
         if c['tag'] == 'leap_mix':
             continue                       # outside the quantifier (header with the wrong leap flag)
         yield 'validate_hourly', {'ap': c['ap'], 'dl': c['dl'], 'data': c['data']}
     for kind, op in (('daily', 'validate_daily'), ('monthly', 'validate_monthly'), ('mph', 'validate_mph')):
-        for c in _gen_keys(ctx, kind, 8000 if big else 1000):
+        for c in _gen_keys(ctx, kind, 3000 if big else 600):
             if c['tag'] in ('empty', 'bad_key'):
                 continue
+            if kind == 'daily' and not c['ap'][7] and any(k == 366 for k, _ in c['data']):
+                continue                   # header with the wrong leap flag: outside the quantifier
             yield op, {'ap': c['ap'], 'data': c['data']}
-    for c in _gen_holes(ctx, 5000 if big else 600):
+    for c in _gen_holes(ctx, 2000 if big else 400):
         if c['tag'] in ('not_validated', 'window'):
             continue
         via = 'validate' if rng.random() < 0.4 else 'flag'
@@ -931,19 +949,46 @@ def _oracle_cases(ctx):
         elif via == 'validate':
             rng.shuffle(data)
         yield 'holes', {'ap': c['ap'], 'data': c['data'] if via == 'flag' else data, 'via': via}
-    for c in _gen_interp(ctx, 4000 if big else 500):
+    for c in _gen_interp(ctx, 1500 if big else 350):
         if c['tag'] != 'ok':
             continue
         yield 'interp', {'ap': c['ap'], 'ts': c['ts'], 'kind': c['kind'], 'vals': c['vals']}
-    for c in _gen_cull(ctx, 8000 if big else 800):
+    for c in _gen_cull(ctx, 3000 if big else 500):
         if c['tag'] != 'ok':
             continue
         yield 'cull', {'ap': c['ap'], 'dl': c['dl'], 'data': c['data'], 'ts': c['ts']}
 
 
 def oracle(ctx):
+    """Like core.run_oracle_cases, but a recorded finding is reported through its first three failing
+    inputs only: the generated stream hits the findings hundreds of times, and the core stops
+    searching after 200 failures."""
+    import json
+    from harness import core
+    known = core.load_known(PROP)
+    seen = {}
     with contextlib.redirect_stdout(io.StringIO()):
-        run_oracle_cases(ctx, _oracle_cases(ctx), check_case)
+        for op, inp in _oracle_cases(ctx):
+            if len(ctx.failures) >= 200:
+                break
+            try:
+                res = check_case(op, inp)
+            except Exception as e:
+                res = {'required': 'oracle evaluates', 'observed': 'exception %s: %s' % (type(e).__name__, e),
+                       'sig': {'exception': type(e).__name__}}
+            ctx.count('oracle:' + op)
+            ctx.case((op, json.dumps(inp, sort_keys=True, default=str)))
+            if res:
+                sig = dict(res.get('sig') or {}, op=op)
+                hit = next((k['id'] for k in known if core.matches(sig, k)), None)
+                if hit is not None:
+                    seen[hit] = seen.get(hit, 0) + 1
+                    ctx.count('known_finding:' + hit)
+                    if seen[hit] > 3:
+                        continue
+                ctx.fail(op, inp, res.get('required'), res.get('observed'), res.get('sig'))
+            elif ctx.evaluations % 997 == 1:
+                ctx.sample({'oracle': op, 'input': inp}, limit=12)
 
 
 LEVEL_TEXT = ('Machine-checked Lean 4 theorems over an executable model of the validation, hole-filling and '
